@@ -109,12 +109,18 @@ def body_ugrid_detector(ctx):
         ds['mesh'].attrs['topology_dimension'] = td
     else:
         ds['mesh'].attrs.pop('topology_dimension', None)      # a mesh variable that does not say it is 2-D
+    # netCDF attributes need not be strings: a number, or several strings (a list / array attribute)
+    form = int(ctx.int('conventions_attr_form', 0, 4))
+    other = {1: 1.6, 2: numpy.float32(1.6), 3: ['CF-1.8', 'UGRID-1.0'], 4: numpy.array(['CF-1.8', 'Deltares-0.10'])}
     if bool(has_attr):
-        ds.attrs['Conventions'] = conv
+        ds.attrs['Conventions'] = conv if form == 0 else other[form]
     else:
         ds.attrs.pop('Conventions', None)
     got = UGrid.check_dataset(ds)
-    marker = And(has_attr, conv.__contains__('UGRID')) if ctx.symbolic else (bool(has_attr) and 'UGRID' in conv)
+    if form == 0:
+        marker = And(has_attr, conv.__contains__('UGRID')) if ctx.symbolic else (bool(has_attr) and 'UGRID' in conv)
+    else:
+        marker = And(has_attr, form == 3)      # the marker is in the text of the attribute only for the list naming UGRID
     is_mesh = (role == 'mesh_topology')
     two_d = And(has_td, same(td, 2))
     ctx.check(Iff(got is not None, And(marker, is_mesh, two_d)),
